@@ -242,6 +242,19 @@ def handle(case):
                     d = d.apply_modifiers() if step == 'mods' else d.flatten()
                 return d
 
+            def mutate(circ):
+                """every kind of in-place change of one side: add at the top, add inside the first nested sub-circuit through its
+                handle, unroll, flatten (flatten after unrolling may hit known finding F10 of C11: ignored here)"""
+                circ.add(co.Wait(0, duration_strategy=FixedDurationStrategy(1.0)))
+                subs = circ.composite_operations
+                if subs:
+                    subs[0].add(co.Wait(0, duration_strategy=FixedDurationStrategy(2.0)))
+                circ.apply_modifiers()
+                try:
+                    circ.flatten()
+                except RecursionError:
+                    pass
+
             def wrap(structure):
                 d = DeclarativeCircuit()
                 d._structure = structure
@@ -259,15 +272,13 @@ def handle(case):
             c3 = fresh()
             cp3 = wrap(c3.circuit_structure.copy())
             before = observe(cp3)
-            c3.add(co.Wait(0, duration_strategy=FixedDurationStrategy(1.0)))
-            c3.apply_modifiers()
+            mutate(c3)
             out['copy_unchanged'] = before == observe(cp3)
             # mutate the copy, watch the original
             c4 = fresh()
             cp4 = wrap(c4.circuit_structure.copy())
             before = observe(c4)
-            cp4.add(co.Wait(0, duration_strategy=FixedDurationStrategy(1.0)))
-            cp4.apply_modifiers()
+            mutate(cp4)
             out['orig_unchanged'] = before == observe(c4)
         if 'cleared' in want:      # diagnostic: same observations with both memo tables cleared before each
             c4 = Builder(case).build(case['prog'])
